@@ -92,6 +92,20 @@ pub fn gen_case(ch: &mut Chooser) -> Case {
         body.push(d(&reg_i, app("vector", vec![sym("free"), sym("free")])));
         body.push(dp(&claim_i, &["k", "who"], vec![app("vector-set!", vec![var(&reg_i), var("k"), var("who")]), Expr::Int(0)]));
         body.push(dp(&seen_i, &[], vec![app("list", vec![app("vector-ref", vec![var(&reg_i), Expr::Int(0)]), app("vector-ref", vec![var(&reg_i), Expr::Int(1)])])]));
+        // plain expressions in the library body: they run once, when the library is instantiated
+        if ch.chance(1, 2) {
+            body.push(Form::Expr(Expr::Set("count".into(), Box::new(Expr::Int(40 * i as i32)))));
+            body.push(Form::Expr(app("vector-set!", vec![var(&reg_i), Expr::Int(1), sym("booted")])));
+            if !late_imports {
+                for j in &deps {
+                    // the other library's state advances while this one is being loaded
+                    body.push(Form::Expr(app(&format!("next-l{}", j), vec![])));
+                }
+            }
+            if !labels.contains(&"expression-in-library-body") {
+                labels.push("expression-in-library-body");
+            }
+        }
         // a syntax definition private to the library, of a name the importer may use for a procedure of its own
         if ch.chance(1, 3) {
             body.push(Form::Raw("(define-syntax twice (syntax-rules () ((twice e) (+ e e))))".into()));
